@@ -9,7 +9,7 @@ from ..core import astutil as A
 from ..core.index import AnalysisError, ClassInfo, FuncInfo
 from ..selftest import M
 from .common import may_conds, is_early_exit_guard, BASE_FILTER, BASE_IFILTER, T, attr_stores, calls_named, conds, every_origin, facts, need, subscript_stores, where
-from . import c13
+from . import c12, c13
 
 PRE = "ufo2ft.preProcessor"
 TTFI = f"{PRE}.TTFInterpolatablePreProcessor"
@@ -44,6 +44,7 @@ def run(prog, chk):
         "every interpolatable filter applies its operation to every master that has the glyph: one loop over all glyph sets without early exit (R09.6)",
         "composites get a master wherever a decomposed component has one: location closure is transitive (R09.7, shared with C13)",
         "the instantiator's cached per-glyph models are dropped whenever a step changed the glyph sets: unconditional clear in replace_source_layers, refresh under every step's 'modified' verdict (R09.8)",
+        "interpolatable OTF masters are compiled with CFFOptimization.NONE whatever the compiler's own option says: no per-master charstring specialisation (R09.9, shared with C12)",
     ]
     chk.not_decided += ["that cu2qu yields equal segment counts for all masters (fontTools)", "point compatibility of the output itself", "custom filters supplied by the caller"]
     chk.guard(r091, prog, chk)
@@ -54,6 +55,7 @@ def run(prog, chk):
     chk.guard(r096, prog, chk)
     chk.guard(r098, prog, chk)
     chk.guard(c13.r135, prog, chk, "R09.7")
+    chk.guard(c12.masters_force_none, prog, chk, "R09.9")
 
 
 def _is_all_glyphsets(e: ast.AST) -> bool:
@@ -421,6 +423,8 @@ def r098(prog, chk):
 
 
 MUTANTS = [
+    M("OTF masters inherit the compiler's optimizeCFF (seeded C09d / C12d)", "ufo2ft/_compilers/interpolatableOTFCompiler.py", "InterpolatableOTFCompiler.compileOutlines",
+      'kwargs["optimizeCFF"] = CFFOptimization.NONE', "pass", rule="R09.9"),
     M("instantiator keeps its cached glyph models when handed the same layer objects (seeded C09c)", "ufo2ft/instantiator.py", "Instantiator.replace_source_layers",
       "self.glyph_mutators.clear()", "if any((old is not new for (_, old), new in zip(self.source_layers, new_layers))):\n    self.glyph_mutators.clear()", rule="R09.8"),
     M("curve conversion does not refresh the instantiator", "ufo2ft/preProcessor.py", "TTFInterpolatablePreProcessor.process",
